@@ -1182,7 +1182,7 @@ func (p *wat2X64Worker) buildFunc_ins(
 					)
 				} else {
 					fmt.Fprintf(w, "    mov rax, qword ptr [rbp%+d]\n",
-						p.fnWasmR0Base+argList[k]*8-8,
+						p.fnWasmR0Base-argList[k]*8-8,
 					)
 					fmt.Fprintf(w, "    mov qword ptr [rsp%+d], rax\n",
 						arg.RSPOff,
